@@ -52,6 +52,8 @@ for sid, (prop, needs, by, detected) in T.items():
         "detecting_check": CHK.get(sid, (prop, ""))[0],
         "detecting_harness_filter": CHK.get(sid, (prop, ""))[1],
     }
+    if sid == "C17-2":
+        meta["note"] = "patch.diff no longer applies to the tree: fix 8fdbc2f rewrote the frame-index code it changed; the same change (frame positions clamped into the partition) was made again on the new code as C17-8, which C17 catches"
     if sid in ("C13-1", "C13-2", "C13-3", "C13-4"):
         meta["confirmed_by"] = "as tools/confirm_seed.sh, with the demonstration run under go test -race (it fails with the patch: DATA RACE; passes without)"
     json.dump(meta, open(d + "/meta.json", "w"), indent=1)
